@@ -91,6 +91,10 @@ def configs(tier):
         for s in sig[:2]:
             for sk in ('scalar', 'list'):
                 cfgs.append({'kind': 'sepsum', 'f1': f1, 'f2': f2, 'sigma': s, 'sk': sk})
+                if f1 == f2:
+                    # the documented power form SeparableSum(f, 2): ONE functional object twice
+                    cfgs.append({'kind': 'sepsum', 'f1': f1, 'f2': f2, 'sigma': s, 'sk': sk,
+                                 'same': 1})
     for b in DER_BASES:
         for sp in ('rn3', 'ud3', 'rn3wa'):
             for s in sig[:2]:
@@ -117,6 +121,8 @@ def _site(cfg):
         return '%s.%s.%s.proximal[%s]' % (cfg['name'], cfg['der'][0], cfg['der'][1],
                                           _space_kind(cfg['space']))
     if k == 'sepsum':
+        if cfg.get('same'):
+            return 'SeparableSum(%s,2).proximal[sigma=%s]' % (cfg['f1'], cfg['sk'])
         return 'SeparableSum(%s,%s).proximal[sigma=%s]' % (cfg['f1'], cfg['f2'], cfg['sk'])
     if k == 'defaultconj2':
         return '%s.convex_conj.convex_conj(default).proximal[%s]' % (cfg['name'],
@@ -185,7 +191,11 @@ def _build(cfg):
     if k == 'sepsum':
         i2 = FR.info('rn2')
         s1, s2 = FR.BY_NAME[cfg['f1']], FR.BY_NAME[cfg['f2']]
-        f = odl.solvers.SeparableSum(s1.build(i2.space, s1.opts[0]), s2.build(i2.space, s2.opts[0]))
+        if cfg.get('same'):
+            f = odl.solvers.SeparableSum(s1.build(i2.space, s1.opts[0]), 2)
+        else:
+            f = odl.solvers.SeparableSum(s1.build(i2.space, s1.opts[0]),
+                                         s2.build(i2.space, s2.opts[0]))
         r1, r2 = s1.ref(i2, s1.opts[0]), s2.ref(i2, s2.opts[0])
         info = _PInfo(f.domain)
         ref = lambda z: DV._add(r1(z[:2]), r2(z[2:]))
@@ -342,6 +352,7 @@ def _ref_at_prox(ref, p):
 
 def run(cfg):
     site = _site(cfg)
+    del DV.DATA[:]
     try:
         f, info, ref, V, ptol = _build(cfg)
         n = info.n
@@ -468,6 +479,34 @@ def run(cfg):
                                  'object gives %s' % (X[-1].tolist(), P[-1].tolist(), second.tolist()))
         except Exception as e:
             first.setdefault('history_raises:' + type(e).__name__, repr(e)[:200])
+        # the caller overwrites, in place, the elements it handed to the combinators (translation,
+        # linear term, Bregman point / subgradient, multiplicand).  Whether the functional follows
+        # that or keeps private copies is its business; but if its VALUES did not move, neither
+        # may its proximal - the operator obtained before and one requested afterwards.
+        data = [g for g in DV.DATA if hasattr(g, 'space')]
+        if data and hasattr(f, 'proximal'):
+            try:
+                probe = [X[0], X[-1]] + [P[0], P[-1]]
+                v0 = [float(f(info.elem(z))) for z in probe]
+                for g in data:
+                    g *= 2
+                v1 = [float(f(info.elem(z))) for z in probe]
+                evals += 2 * len(probe)
+                if all((a == b) or (np.isnan(a) and np.isnan(b)) for a, b in zip(v0, v1)):
+                    for what, op in (('obtained before', prox),
+                                     ('requested afterwards', f.proximal(sigma))):
+                        for x0, p0 in ((X[0], P[0]), (X[-1], P[-1])):
+                            q = S.to_flat(op(info.elem(x0))).astype(float)
+                            evals += 1
+                            if not np.all(np.abs(q - p0) <= tolh * (1 + np.abs(p0))):
+                                first.setdefault(
+                                    'proximal_moved_but_values_did_not_after_data_element_was_modified',
+                                    'after the %d data element(s) of the functional were doubled in '
+                                    'place its values at the probe points are unchanged, but the '
+                                    'proximal %s maps x=%s to %s instead of %s'
+                                    % (len(data), what, x0.tolist(), q.tolist(), p0.tolist()))
+            except Exception as e:
+                first.setdefault('history_raises:' + type(e).__name__, repr(e)[:200])
     # firm non-expansiveness on all pairs, in the metric of the quadratic term
     if len(X) > 1:
         X = np.array(X)
